@@ -835,8 +835,6 @@ impl Overlay {
             anyhow::bail!("Store is poisoned due to prior error");
         }
 
-        let marker = self.mark_committed();
-
         {
             let mut shared = nomt.shared.lock();
             if shared.root != self.prev_root() {
@@ -846,6 +844,8 @@ impl Overlay {
                     shared.root
                 );
             }
+            // only an accepted overlay counts as committed for its descendants.
+            let marker = self.mark_committed();
             shared.root = root;
             shared.last_commit_marker = Some(marker);
         }
@@ -901,8 +901,6 @@ impl Overlay {
             anyhow::bail!("Store is poisoned due to prior error");
         }
 
-        let marker = self.mark_committed();
-
         {
             let mut shared = nomt.shared.lock();
             if shared.root != self.prev_root() {
@@ -912,6 +910,8 @@ impl Overlay {
                     shared.root
                 );
             }
+            // only an accepted overlay counts as committed for its descendants.
+            let marker = self.mark_committed();
             shared.root = root;
             shared.last_commit_marker = Some(marker);
         }
